@@ -223,6 +223,12 @@ def gen_pipeline_case(rng, families=None, methods=('cycles', 'amp'), nsec=(1.0, 
     if method == 'cycles':
         thr = gen_thresholds_cycles(rng, full=rng.random() < 0.7)
         bk = None
+        if rng.random() < 0.2:
+            # burst options left over from an amplitude-method analysis: they play no role in the consistency method
+            bk = {'min_n_cycles': int(rng.choice([1, 2, 4, 6]))}
+            if rng.random() < 0.5:
+                bk['amp_threshes'] = (1.0, 2.0)
+            kind = kind + '+amp_options_with_cycles_method'
         if rng.random() < 0.1:
             thr = None
     else:
@@ -233,9 +239,18 @@ def gen_pipeline_case(rng, families=None, methods=('cycles', 'amp'), nsec=(1.0, 
             bk['fs'] = fs * 2
             bk['f_range'] = (lo + 1.0, hi + 1.0)
             kind = kind + '+stale_fs_keys'
+    share_filter = False
+    if method == 'amp' and rng.random() < 0.15:
+        # one filter-options dict written once and handed to both stages (extrema filter and amplitude detector)
+        filt = {'n_cycles': int(rng.choice([4, 5, 7]))}
+        fek = dict(fek or {}, filter_kwargs=dict(filt))
+        bk = dict(bk or {}, filter_kwargs=dict(filt))
+        share_filter = True
+        kind = kind + '+one_filter_dict_for_both_stages'
     view = [None, None, None, None, None, 'subclass', 'strided', 'readonly'][int(rng.integers(0, 8))]
     return dict(sig=sig, sig_view=view, fs=fs, f_range=(lo, hi), center_extrema=center, burst_method=method,
                 burst_kwargs=bk, threshold_kwargs=thr, find_extrema_kwargs=fek,
-                return_samples=bool(rng.random() < 0.8), family=kind, route=route,
+                return_samples=bool(rng.random() < 0.8), family=kind, route=route, share_filter_dict=share_filter,
                 obj_refit=[None, 'attribute', 'buffer'][int(rng.integers(0, 3))],
-                arg_types=[None, None, None, 'numpy', 'ints', 'mixed'][int(rng.integers(0, 6))])
+                arg_types=[None, None, None, 'numpy', 'ints', 'mixed'][int(rng.integers(0, 6))],
+                buffer_history=bool(rng.random() < 0.15))
